@@ -270,6 +270,28 @@ func c19Seq(c *engine.Ctx, hist []int, oi int) {
 	}
 	// wire: the container's encoding parses to the model (skip containers whose SK is not last: not encodable as a chain)
 	c19Wire(c, cs, op.name, cont, model)
+	// Reset and reuse: somebody (a message built from this container, the caller's own variable) still holds
+	// the list; after Reset the container is built up again and the holder must still see the old payloads
+	if len(cont) > 0 {
+		holder := cont
+		want := make([]message.IKEPayload, len(cont))
+		copy(want, cont)
+		cont.Reset()
+		if len(cont) != 0 {
+			c.Violate("reset/not-empty", fmt.Sprintf("after Reset the container holds %d payloads", len(cont)), cs)
+			return
+		}
+		if pi := engine.Catch(func() { _ = op.apply(&cont); _ = ops[(oi+5)%len(ops)].apply(&cont) }); pi != nil {
+			c.Violate(pi.Sig(), "building after Reset panics: "+pi.Value, cs)
+			return
+		}
+		for i := range want {
+			if holder[i] != want[i] {
+				c.Violate("reset/rebuild-overwrites-held-list", fmt.Sprintf("%s: a payload list handed out before Reset shows a different payload at index %d after the container was reset and built up again", op.name, i), cs)
+				return
+			}
+		}
+	}
 }
 
 func c19Wire(c *engine.Ctx, cs c19Case, opname string, cont message.IKEPayloadContainer, model []ref.Payload) {
